@@ -184,7 +184,9 @@ class OrbitRef:
                    "sine": float(np.linalg.norm(r)) / max(ne, 1e-300), "sigma_min": float(sv[-1]), "lam": lam,
                    "orient_cos": abs(cosw), "normDf": nDf, "gap": gap, "imag": imag, "iters": it + 1,
                    "pos_norm": abs(float(c[1])) * float(np.linalg.norm(v[:3]))}
-            if abs(alpha) * nDf <= 1e-7 or it == iters - 1:
+            # Stopping early is always sound: the caller's tolerance contains 2*|alpha|*|Df| for the phase shift that
+            # was not applied.  A displacement 17 degrees or more off the plane cannot be rescued by an O(d) shift.
+            if abs(alpha) * nDf <= 1e-7 or it == iters - 1 or out["sine"] > 0.3:
                 break
             t = t + alpha
             if abs(t) > 1.015 * self.T:
